@@ -248,18 +248,26 @@ def pool_source(ctx, report, rule, facts, config):
 
 
 def pool_share(ctx, report, rule, facts, config):
-    prog = ctx.program(facts)
+    """add_batch gives the inner builder a clone of the outer pool slot before it is built."""
+    from . import semq as Q
     b = facts.one(A.DB + "::add_batch")
     report.touched(b, config)
-    ps = [p for p in enumerate_paths(b, facts) if p.end == "return"]
-    ok = bool(ps)
+    build = facts.one(A.DB + "::build")
+    keep = [x.key for x in facts.bodies.values() if not x.is_closure and ((x.self_head == A.SB and x.name in ("fetch_all_reads", "fetch_all_writes")) or
+                                                                        (x.self_head == A.DB and x.name in ("build", "add")) or (x.self_head == A.BCS and x.name == "create"))]
+    ev, ends = Q.sem(ctx, facts, b, opaque=keep)
+    rets = [e for e in ends if e.kind == "return"]
+    ok = bool(rets)
     detail = ""
-    for p in ps:
-        st = [e for e in p.effects if e[0] == "store" and e[2] == ("field", ("param", 3), "thread_pool", A.DB)]
-        builds = [e for e in p.calls() if e[2].name == "build" and e[2].self_head == A.DB]
-        good = (len(st) == 1 and st[0][3][0] == "call" and S.callee_at(b, st[0][3][1]).name == "clone"
-                and st[0][3][2] == (("field", ("param", 1), "thread_pool", A.DB),) and len(builds) == 1
-                and p.blocks.index(st[0][1]) < p.blocks.index(builds[0][1]) and builds[0][3][0] == ("param", 3))
+    for e in rets:
+        pos = dict((id(x), i) for i, x in enumerate(e.path.events))
+        st = [x for x in e.path.events if x[0] == "store" and x[2] == ("field", ("param", 3), "thread_pool", A.DB)]
+        builds = [x for x in e.path.events if x[0] == "call" and x[2].key == build.key]
+        good = False
+        if len(st) == 1 and len(builds) == 1:
+            v = st[0][3]
+            good = (Q.is_call(ev, v, "clone") and Q.strip(ev, v[2][0]) == ("field", ("param", 1), "thread_pool", A.DB)
+                    and pos[id(st[0])] < pos[id(builds[0])] and builds[0][3][0] == ("param", 3))
         if not good:
             ok = False
             detail = "the inner builder is built without first receiving self.thread_pool.clone()"
